@@ -212,7 +212,8 @@ def taylor_coeffs(exprs, eps, order):
 
 def taylor_spec(ctx, name, symbols, eps, code, spec_coeffs, order, domain=None, kind="b",
                 cos_nonneg=(), cell_names=None, py=None, fd_step=1e-4, tol=2e-5, crosscheck=True,
-                orders=None, rdomain_kw=None, extra_relations=(), post=None, derived=None, const_box=None):
+                orders=None, rdomain_kw=None, extra_relations=(), post=None, derived=None, const_box=None,
+                cc_eps=(-0.5, 0.5), cc_tol=1e-5):
     """Obligations `name[cell].o<k>`: the k-th Taylor coefficient in `eps` of code(v)
     equals spec_coeffs(v)[cell][k] for k in `orders` (default 0..order).
 
@@ -248,21 +249,24 @@ def taylor_spec(ctx, name, symbols, eps, code, spec_coeffs, order, domain=None, 
             vv[eps.name] = e
             out = flat_float(code(vv))
             return out[i]
-        h = fd_step
-        if k == 0:
-            g = f(0.0)
-        elif k == 1:
-            g = (8 * (f(h) - f(-h)) - (f(2 * h) - f(-2 * h))) / (12 * h)
-        elif k == 2:
-            g = (-f(2 * h) + 16 * f(h) - 30 * f(0.0) + 16 * f(-h) - f(-2 * h)) / (12 * h * h) / 2
-        else:
-            g = (f(2 * h) - 2 * f(h) + 2 * f(-h) - f(-2 * h)) / (2 * h ** 3) / 6
+        def fd(h):
+            if k == 0:
+                return f(0.0)
+            if k == 1:
+                return (8 * (f(h) - f(-h)) - (f(2 * h) - f(-2 * h))) / (12 * h)
+            if k == 2:
+                return (-f(2 * h) + 16 * f(h) - 30 * f(0.0) + 16 * f(-h) - f(-2 * h)) / (12 * h * h) / 2
+            return (f(2 * h) - 2 * f(h) + 2 * f(-h) - f(-2 * h)) / (2 * h ** 3) / 6
+        g = fd(fd_step)
+        g2 = fd(fd_step * 2)
+        noise = abs(g - g2)                       # finite-difference error estimate (two step sizes)
         fw = lambdify_at_constants(py, [want[i][k]], symbols)
         with mpmath.workdps(30):
             w = float(fw(*[mpmath.mpf(v[s.name]) for s in symbols])[0])
-        return dict(reproduced=not _close(g, w, tol * 10 ** k, 1.0), inputs=v, order=k,
-                    measured_on_real_code=g, contract_demands=w,
-                    method="central finite differences, step %g" % h)
+        rep = abs(g - w) > 10 * noise + 1e-13 * max(abs(w), abs(g), 1e-3)
+        return dict(reproduced=bool(rep), inputs=v, order=k,
+                    measured_on_real_code=g, contract_demands=w, finite_difference_error_estimate=noise,
+                    method="central finite differences of the real function, steps %g and %g" % (fd_step, 2 * fd_step))
 
     for i in range(len(got)):
         cn = cell_names[i] if cell_names else str(i)
@@ -274,8 +278,8 @@ def taylor_spec(ctx, name, symbols, eps, code, spec_coeffs, order, domain=None, 
     if crosscheck and post is None:
         # cross-check the eps-dependent expression itself at small random eps
         d2 = dict(dom)
-        d2[eps] = (-0.5, 0.5)
-        cross_check(ctx, name, list(symbols) + [eps], code, got, d2, py=py, tol=1e-5)
+        d2[eps] = cc_eps
+        cross_check(ctx, name, list(symbols) + [eps], code, got, d2, py=py, tol=cc_tol)
     return coeffs
 
 
